@@ -74,6 +74,8 @@ def gen(tier, rng):
         for k in range(0, 4):
             cases.append(f"shut\tatreturn\t{kind}\t{k}")
         cases.append(f"shut\tslowquit\t{kind}")
+        # ... and a connection being set up (the peer greets after 1.5 s) does not delay shutdown either
+        cases.append(f"shut\tslowconnect\t{kind}")
     return cases
 
 
